@@ -42,7 +42,10 @@ DEFAULT_FLAGS = {
     'keyword_calls': False,     # some kernel-to-kernel calls with keyword arguments
     'max_stmts': 4,
     'fuse_pragmas': False,      # !$loki loop-fusion pragmas on fusable vertical loops
+    'alias_names': False,       # nested kernels name the horizontal / vertical size dummies differently
 }
+
+ALIASES = {'A': {'hsize': 'nproma', 'vsize': 'klev'}, 'B': {'hsize': 'nproma', 'vsize': 'nlev'}}
 
 NAMES = {
     'A': {'hsize': 'nlon', 'hlo': 'start', 'hup': 'end', 'hidx': 'jl', 'vsize': 'nz', 'vidx': 'jk',
@@ -106,9 +109,11 @@ class SccGen:
         self.rng = rng
         self.f = dict(DEFAULT_FLAGS)
         self.f.update(flags or {})
-        self.n = NAMES[self.f['names']]
+        self.n = dict(NAMES[self.f['names']])
+        self.base_n = dict(self.n)
         self.case = Case()
         self.case.names = dict(self.n)
+        self.case.aliases = dict(ALIASES[self.f['names']]) if self.f['alias_names'] else {}
         self.feat = self.case.features
         self.cnt = 0
 
@@ -476,8 +481,14 @@ class SccGen:
 
     # ------------------------------------------------------------------ kernels
     def gen_kernel(self, level, callees):
-        rng, n, f = self.rng, self.n, self.f
+        rng, f = self.rng, self.f
+        self.n = dict(self.base_n)
+        if f['alias_names'] and level >= 1:
+            self.n.update(ALIASES[f['names']])
+            self.feat.add('names:aliased-sizes-in-nested-kernels')
+        n = self.n
         ker = Kernel(f'kern{level}' if level else 'kern0')
+        ker.n = dict(n)
         ker.name = self.fresh('kern_l%d_' % level)
         ker.calls = callees
         ker.scalars = ['zfac']          # intent(in) real scalar argument
@@ -614,7 +625,8 @@ class SccGen:
         return out
 
     def kernel_text(self, ker):
-        n, f = self.n, self.f
+        n, f = ker.n, self.f
+        self.n = ker.n
         names = [n['hlo'], n['hup'], n['hsize'], n['vsize']] + [a.name for a in ker.args] + ['zfac', 'lflag']
         L = [f'  subroutine {ker.name}({", ".join(names)})']
         kinds = 'jpim, jprb, jprm'
@@ -642,6 +654,7 @@ class SccGen:
 
     # ------------------------------------------------------------------ driver and main
     def gen_driver(self, tops):
+        self.n = dict(self.base_n)
         n, rng, f = self.n, self.rng, self.f
         H, V, B, ibl, jl = n['hsize'], n['vsize'], n['bsize'], n['bidx'], n['hidx']
         fields = []        # driver-level arrays (dummy of driver): name, base, shape, kind
@@ -707,6 +720,7 @@ class SccGen:
         return '\n'.join(L)
 
     def gen_main(self):
+        self.n = dict(self.base_n)
         n = self.n
         H, V, B = n['hsize'], n['vsize'], n['bsize']
         L = ['program main', '  use parkind1, only: jpim, jprb, jprm',
